@@ -34,6 +34,7 @@ typedef struct hstep_s { uint8_t op; uint16_t k; } hstep_t;
 #define MAXH 24
 static struct {
 	int	mode;		/* 0 = short-write send, 1 = datagram receiver */
+	int	via_connect_send;	/* mode 0: the task is made by tp_task_connect_send_create() */
 	uint16_t evflags;
 	int	timeout;
 	int	consume;	/* datagram mode: callback empties the buffer after each packet */
@@ -68,7 +69,7 @@ cfail(const char *clause, const char *fmt, ...) {
 static void
 case_desc(char *b, size_t n) {
 	int i; size_t o;
-	o = (size_t)snprintf(b, n, "%s evfl=%d tmo=%d consume=%d win=%d hist:", C.mode ? "dgram" : "shortwrite", C.evflags, C.timeout, C.consume, C.win);
+	o = (size_t)snprintf(b, n, "%s%s evfl=%d tmo=%d consume=%d win=%d hist:", C.mode ? "dgram" : "shortwrite", C.via_connect_send ? "(connect_send_create)" : "", C.evflags, C.timeout, C.consume, C.win);
 	for (i = 0; i < C.nh && o + 12 < n; i ++)
 		o += (size_t)snprintf(b + o, n - o, " %s%d", (H_DRAIN == C.h[i].op) ? "drain" : (H_FIRE == C.h[i].op) ? "fire" : (H_DGRAM == C.h[i].op) ? "dg" : (H_BURST == C.h[i].op) ? "burst" : "close", C.h[i].k);
 }
@@ -227,8 +228,12 @@ run_case(void) {
 		peer_got = (uint8_t *)malloc(BIG);
 		for (i = 0; i < BIG; i ++) bigmem[i] = pay(i);
 		buf.data = bigmem; buf.size = BIG; buf.used = BIG; buf.offset = 0; buf.transfer_size = BIG;
-		rc = tp_task_create(t0, (uintptr_t)sk[0], tp_task_sr_handler, 0, NULL, &task);
-		if (0 == rc) rc = tp_task_start(task, TP_EV_WRITE, C.evflags, C.timeout ? TIMEOUT_MS : 0, 0, &buf, send_cb);
+		if (C.via_connect_send)
+			rc = tp_task_connect_send_create(t0, (uintptr_t)sk[0], 0, C.timeout ? TIMEOUT_MS : 0, &buf, send_cb, NULL, &task);
+		else {
+			rc = tp_task_create(t0, (uintptr_t)sk[0], tp_task_sr_handler, 0, NULL, &task);
+			if (0 == rc) rc = tp_task_start(task, TP_EV_WRITE, C.evflags, C.timeout ? TIMEOUT_MS : 0, 0, &buf, send_cb);
+		}
 	} else {
 		bigmem = (uint8_t *)malloc((size_t)C.win);
 		peer_got = NULL;
@@ -241,6 +246,12 @@ run_case(void) {
 		settle_left = 12;
 		rc = tp_thread_attach_first(tp);
 		if (0 != rc) vh_fail("harness", "attach rc=%d", rc);
+	}
+	if (!case_failed && 0 == C.mode && !task_dead && buf.transfer_size > 0) {
+		/* the loop went quiet: an armed task with data left must be waiting for room, not sitting on a writable socket */
+		struct pollfd wp; wp.fd = sk[0]; wp.events = POLLOUT; wp.revents = 0;
+		if (1 == poll(&wp, 1, 0) && 0 != (wp.revents & POLLOUT))
+			cfail("send-stalled", "the socket is writable, the task is armed and has %zu of %d bytes left, but it does not send", buf.transfer_size, BIG);
 	}
 	if (!case_failed && 0 == C.mode) {
 		/* final: drain everything, the emitted stream must be the window */
@@ -337,6 +348,9 @@ main(int argc, char **argv) {
 		C.evflags = evf[f]; C.nh = 0;
 		gen_drains(BIG, 0);
 	}
+	C.via_connect_send = 1; C.evflags = 0;
+	for (C.timeout = 0; C.timeout < 2; C.timeout ++) { C.nh = 0; gen_drains(BIG, 0); }
+	C.via_connect_send = 0;
 	C.mode = 1; C.evflags = 0;
 	for (C.consume = 0; C.consume < 2; C.consume ++) for (C.timeout = 0; C.timeout < 2; C.timeout ++) for (C.win = 8; C.win <= 12; C.win += 4) {
 		C.nh = 0;
